@@ -868,3 +868,76 @@ class UnionCoherence(T2Case):
 
 def make_union_coh(prog_json):
     return UnionCoherence(prog_json)
+
+
+class AssignLocal(T2Case):
+    """C17: assigning one field of a parsed fixed-size structure changes, in dumps(), exactly the bytes of that field."""
+
+    kind = "C17assign"
+    functions = ["dissect/cstruct/types/structure.py:StructureMetaType._write"]
+
+    def body(self, ctx):
+        from specs import layout
+
+        if not self.load_or_reject(ctx):
+            return
+        T = self.cls(False)
+        if T.size is None:
+            return
+        D, p = self.new_input(ctx)
+        ctx.assume(zint(p) + T.size <= D.length())
+        it = self.interp(ctx)
+        s = SymStream(ctx, D, p, name="in")
+        o = outcome(it, T._read, [s])
+        if o[0] != "ok":
+            return
+        v = o[1]
+        out0 = SymStream(ctx, SBytes([]), 0, name="out")
+        if outcome(it, T._write, [out0, v])[0] != "ok":
+            return
+        base = out0.data
+        desc = layout.describe(T)
+        lay = desc.get("layout")
+        if lay is None:
+            return
+        for i, f in enumerate(T.__fields__):
+            if f.bits or f.name is None:
+                continue
+            ft = f.type
+            from dissect.cstruct.types import Packed, Int
+
+            if not (issubclass(ft, (Packed, Int)) and issubclass(ft, int)):
+                continue
+            nv = z3.Int(f"new_{f._name}")
+            from pyvc.models import fits
+
+            ctx.assume(fits(nv, ft.size, getattr(ft, "signed", None) if hasattr(ft, "signed") else ft.packchar.islower()))
+            old = getattr(v, f._name)
+            setattr(v, f._name, nv)
+            out1 = SymStream(ctx, SBytes([]), 0, name="out")
+            r = outcome(it, T._write, [out1, v])
+            setattr(v, f._name, old)
+            if r[0] != "ok":
+                ctx.prove(f"assign-{f._name}/dumps-succeeds", False, info=str(r[1]))
+                continue
+            off = lay["offsets"][i]
+            n1 = out1.data.length()
+            ctx.prove(f"assign-{f._name}/same-length", ctx.eq(n1, base.length()))
+            if isinstance(n1, int) and n1 == base.length():
+                outside = [deep_eq(it, out1.data.byte_at(k), base.byte_at(k)) for k in range(n1) if not off <= k < off + ft.size]
+                g = True
+                for e in outside:
+                    g = it._and(g, e)
+                ctx.prove(f"assign-{f._name}/bytes-outside-the-field-unchanged", g)
+                from pyvc.models import enc_int
+
+                exp = enc_int(nv, ft.size, "little" if self.prog.endian == "<" else "big")
+                inside = True
+                for j in range(ft.size):
+                    inside = it._and(inside, deep_eq(it, out1.data.byte_at(off + j), exp[j]))
+                ctx.prove(f"assign-{f._name}/field-bytes-are-the-new-value", inside)
+        ctx.cover("assigned")
+
+
+def make_assign(prog_json):
+    return AssignLocal(prog_json)
